@@ -111,3 +111,22 @@ def run_points(ctx, prog, rule, label, path, pty, points, spec, gargs=None, key_
             ctx.count('probe_points_undecided')
     ctx.count('probe_points', n)
     return n
+
+
+def run_points_parallel(ctx, prog, jobs, chunk=400, prefix='probe_'):
+    """jobs: list of dicts (rule, label, path, pty, points, spec, and optional run_points keywords); the points are decided in forked workers"""
+    import collections
+    import rules_rounding
+
+    def task(c, pr, job, pts):
+        n = run_points(c, pr, job['rule'], job['label'], job['path'], job['pty'], pts, job['spec'],
+                       **{k: v for k, v in job.items() if k in ('gargs', 'key_label', 'mkargs', 'out_bits')})
+        return collections.Counter(points=n)
+    tasks = []
+    for job in jobs:
+        pts = job['points']
+        for i in range(0, len(pts), chunk):
+            tasks.append((task, (job, pts[i:i + chunk]), {}))
+    st = rules_rounding.run_parallel(ctx, prog, tasks, prefix=prefix)
+    ctx.count('probe_points', st['points'])
+    return st['points']
